@@ -288,7 +288,8 @@ def run_prog(case):
           st = agg().merge_states([accs[op[1]], accs[op[2]]])
           obs.append(None if st is accs[op[1]] else {'err': 'merge_states did not return the first state'})
       elif tag == 'merge_states':
-        st = agg().merge_states([accs[i] for i in op[1]])
+        from harness.lib_states import pack   # case['container']: list (default) / tuple / generator / ... (SC11)
+        st = agg().merge_states(pack([accs[i] for i in op[1]], case.get('container')))
         obs.append(None if st is accs[op[1][0]] else {'err': 'merge_states did not return the first state'})
       elif tag == 'result':
         obs.append(result(accs[op[1]], at))
